@@ -9,7 +9,7 @@ from .instructions import PrefixToken
 from .instructions import RexToken, ModRmToken, SibToken
 from .instructions import Imm32Token, Imm8Token
 from .instructions import RmMem, RmMemDisp, RmReg32, RmReg64, RmAbs, MovAdr
-from .instructions import Jb, Jbe, Ja, Jae, Je, Jne, Js, NearJump
+from .instructions import Ja, Jae, Je, Jne, Js, Jp, NearJump
 from .instructions import SubImm, AddImm
 from .registers import XmmRegisterSingle, XmmRegisterDouble
 from .registers import Register64, Register32, rsp, eax, rax
@@ -793,14 +793,37 @@ def pattern_rmf64_f64(context, tree, c0):
     return RmXmmRegDouble(c0)
 
 
-jump_opnames = {"<": Jb, ">": Ja, "==": Je, "!=": Jne, ">=": Jae, "<=": Jbe}
+# The ucomiss / ucomisd instructions set zf, pf and cf when an operand is
+# NaN (unordered). A comparison with NaN must be false, except for '!='.
+# The ja and jae jumps are not taken in that case, so '<' and '<=' are done
+# by comparing the swapped operands. The '==' and '!=' cases test pf first.
+swapped_opnames = {"<": Ja, "<=": Jae}
+jump_opnames = {">": Ja, ">=": Jae}
 
 
-def pattern_cjmp(context, value):
+def pattern_cjmp(context, value, compare, c0, c1):
     op, yes_label, no_label = value
-    Bop = jump_opnames[op]
     jmp_ins = NearJump(no_label.name, jumps=[no_label])
-    context.emit(Bop(yes_label.name, jumps=[yes_label, jmp_ins]))
+    if op in swapped_opnames:
+        compare(c1, c0)
+        Bop = swapped_opnames[op]
+        context.emit(Bop(yes_label.name, jumps=[yes_label, jmp_ins]))
+    elif op in jump_opnames:
+        compare(c0, c1)
+        Bop = jump_opnames[op]
+        context.emit(Bop(yes_label.name, jumps=[yes_label, jmp_ins]))
+    elif op == "==":
+        compare(c0, c1)
+        je_ins = Je(yes_label.name, jumps=[yes_label, jmp_ins])
+        context.emit(Jp(no_label.name, jumps=[no_label, je_ins]))
+        context.emit(je_ins)
+    elif op == "!=":
+        compare(c0, c1)
+        jne_ins = Jne(yes_label.name, jumps=[yes_label, jmp_ins])
+        context.emit(Jp(yes_label.name, jumps=[yes_label, jne_ins]))
+        context.emit(jne_ins)
+    else:  # pragma: no cover
+        raise NotImplementedError(op)
     context.emit(jmp_ins)
 
 
@@ -808,13 +831,17 @@ def pattern_cjmp(context, value):
     "stm", "CJMPF32(regfp32,regfp32)", size=6, cycles=3, energy=3
 )
 def pattern_cjmp_f32(context, tree, c0, c1):
-    context.emit(Ucomiss(c0, RmXmmRegSingle(c1)))
-    pattern_cjmp(context, tree.value)
+    def compare(a, b):
+        context.emit(Ucomiss(a, RmXmmRegSingle(b)))
+
+    pattern_cjmp(context, tree.value, compare, c0, c1)
 
 
 @sse1_isa.pattern(
     "stm", "CJMPF64(regfp64,regfp64)", size=6, cycles=3, energy=3
 )
 def pattern_cjmp_f64(context, tree, c0, c1):
-    context.emit(Ucomisd(c0, RmXmmRegDouble(c1)))
-    pattern_cjmp(context, tree.value)
+    def compare(a, b):
+        context.emit(Ucomisd(a, RmXmmRegDouble(b)))
+
+    pattern_cjmp(context, tree.value, compare, c0, c1)
